@@ -148,7 +148,9 @@ def structural_handlers(repo: Repo, rep, P: str, secs):
         if r is None:
             continue
         want = f"._current_chunk.{cid.lower()}"
-        if want in r.targets:
+        import re as _re
+        # the reader's private attribute that holds the block being collected, whatever it is called
+        if want in r.targets or any(_re.match(rf"^\._\w+\.{cid.lower()}$", t) for t in r.targets):
             rep.ok(f"{P}.R2", f"{r.rel}:{r.cls}.process_{cid}", f"{cid} → _current_chunk.{cid.lower()}")
         else:
             rep.violation(f"{P}.R2", f"{r.rel}:{r.cls}.process_{cid}", f"{cid} → {r.targets}",
